@@ -6,6 +6,9 @@ ALL = ["C%02d" % i for i in range(1, 20)]
 
 # id -> (level category, technique, level text, level note, design ref)
 CHECKS = {
+ "C19": ("fault_enumeration", "process-level monitor: the built CLI run in scratch trees with a file-system oracle (content hashes, inodes, mtimes), strace syscall injection of SIGKILL at the entry of / right after the N-th write, close, unlinkat, openat per thread, and an offline ordering check over the syscall trace",
+         "The v2/app binary is built from the working tree. 16 (quick) / 200 (thorough) random trees x levels 0-9 and explicit option sets are round-tripped in place with --rm, dir->dir with -f, file->file and stdin->stdout (exit status 0, identical bytes, tool streams also decoded by the library); existing outputs must survive runs without -f and outputs aliasing the input are refused; inputs keep content/inode/mtime. Kill safety: for compress --rm and decompress --rm runs the process is killed at the entry of the N-th syscall (signal injection) and right after the N-th syscall returned (delay_exit + SIGKILL) for N = 1..max; afterwards every source must exist intact or its output must decode to it. The traced fault-free runs must show each unlink after the last write to the corresponding output.",
+         "Kill points at system-call granularity; power-loss durability is out of scope. The 'when=N' counter of strace is per thread, so the oracle never depends on which thread was hit.", "DESIGN.md §3 C19"),
  "C03": ("exploration", "process monitor over structure-aware hostile inputs: child-process exit status, escaped panics, CPU-time budget with isolated re-run, recovered-panic hook",
          "About 4 300 (quick) / 85 000 (thorough) inputs derived from valid seed streams of every transform and entropy codec through the independent container code - header fields with the header check recomputed, forged length prefixes / widths, mode byte, skip flags, stored length, codec headers (incl. every BWT primary index of > 4 MiB blocks), payload damage, truncation, duplicated / dropped / swapped blocks, oversized copy blocks under a small declared size, garbage - are decoded in child processes with jobs 1..8. Oracle: the child survives, no panic escapes Read, and the CPU budget (60 s, isolated re-run 240 s) is not exceeded twice. The recover hook counts the decoder's swallowed panics per site (about 1 000 per quick run) as evidence that the defences were exercised.",
          "'Bounded by the declared block sizes' is restated as a CPU budget; gigabyte-sized forged declarations run only in the serial thorough batch; allocations up to declared sizes are legitimate.", "DESIGN.md §3 C03"),
